@@ -143,6 +143,20 @@ class Blk4(ObjVal):
     __repr__ = show
 
 
+class Slide(ObjVal):
+    """np.lib.stride_tricks.sliding_window_view(X, width, axis=1): element [c, s, t] = X[c, s + t].  `lo`/`n` restrict the window
+    starts to lo .. lo+n-1 (n None: all of them), `order` lists what the three axes carry ('c' channel, 'k' window start, 't' sample),
+    `rev` tells that the window starts run backwards (lo+n-1 .. lo)"""
+
+    def __init__(self, role, width, lo=None, n=None, order=("c", "k", "t"), rev=False):
+        self.role, self.width, self.lo, self.n, self.order, self.rev = role, width, (P.c(0) if lo is None else lo), n, tuple(order), rev
+
+    def show(self):
+        return f"Slide<{self.role}>[width {self.width!r}, starts {self.lo!r}+{self.n!r}{' reversed' if self.rev else ''}]@{''.join(self.order)}"
+
+    __repr__ = show
+
+
 class RFac(ObjVal):
     def __init__(self, arg, mode, transposed=False):
         self.arg, self.mode, self.transposed = arg, mode, transposed
@@ -185,7 +199,13 @@ class Interp(seqdom.Interp):
         for p_, r in self.roles.items():
             if r[0] == "rec" and p_ not in args:
                 args[p_] = Rec(r[1])
+        self.sh.setdefault("errors", [])
         return super().run(fi, args)
+
+    @property
+    def errors(self):
+        """definite structural defects met while interpreting: (node, text)"""
+        return self.sh.setdefault("errors", [])
 
     def attr_hook(self, base, name, node):
         if isinstance(base, Rec) and name == "shape":
@@ -235,12 +255,57 @@ class Interp(seqdom.Interp):
         blk = blk.subs(t[1], lag)
         return Blk4(g.dims[0].var, exts[0], g.dims[1].var, exts[1], blk)
 
+    def _step(self, x):
+        """constant value of a slice step (given as a value or as a raw expression), None if not constant"""
+        if x is None:
+            return 1
+        if isinstance(x, ast.AST):
+            try:
+                v = ast.literal_eval(x)
+                return v if isinstance(v, int) else None
+            except Exception:
+                return None
+        p = self.topoly(x)
+        return int(p.const()) if p is not None and p.is_const() else None
+
     def index_hook(self, base, idx, node):
         if isinstance(base, Sq) and len(idx) == 1 and isinstance(node, ast.Subscript) and not (isinstance(idx[0], tuple) and idx[0][0] == "slice") \
                 and not (isinstance(idx[0], Val) and self.topoly(idx[0]) is not None):
             r = self.grid_gather(base, node)
             if r is not None:
                 return r
+        if isinstance(base, Slide) and len(idx) <= 3:
+            full = list(idx) + [("slice", None, None, None)] * (3 - len(idx))
+            out = base
+            for pos_, x in enumerate(full):
+                what = base.order[pos_]
+                if not (isinstance(x, tuple) and x[0] == "slice"):
+                    return Opq(f"index `{astq.src(node, 50)}` into a sliding-window view")
+                if x[1] is None and x[2] is None and x[3] is None:
+                    continue
+                st = self._step(x[3])
+                if what != "k" or st not in (1, -1):
+                    return Opq(f"selection `{astq.src(node, 50)}` of a sliding-window view on its {what} axis")
+                if st == -1:
+                    if x[1] is not None or x[2] is not None:
+                        return Opq("reversed partial selection of window starts")
+                    out = Slide(out.role, out.width, out.lo, out.n, out.order, not out.rev)
+                    continue
+                lo = self.topoly(x[1]) if x[1] is not None else P.c(0)
+                hi = self.topoly(x[2]) if x[2] is not None else None
+                if lo is None or (x[2] is not None and hi is None):
+                    return Opq("window-start bounds not polynomial")
+                n_ = (hi - lo) if hi is not None else (out.n - lo if out.n is not None else None)
+                out = Slide(out.role, out.width, out.lo + lo, n_, out.order, out.rev)
+            return out
+        if isinstance(base, Stk) and len(idx) >= 1 and isinstance(idx[0], tuple) and idx[0][0] == "slice" and idx[0][3] is not None \
+                and all(isinstance(x, tuple) and x[0] == "slice" and x[1] is None and x[2] is None and x[3] is None for x in idx[1:]):
+            st = self._step(idx[0][3])
+            if st == -1 and idx[0][1] is None and idx[0][2] is None and not base.transposed:
+                # reversing the ROWS of a stack of blocks reverses the blocks AND the channels inside every block
+                self.errors.append((node, f"`{astq.src(node, 50)}` reverses all rows of a block stack: the block order is reversed, but so are the channels inside every "
+                                          f"block (row (k, c) <- (n-1-k, nch-1-c)): entries no longer pair channel a with reference b"))
+                return Opq("row reversal of a block stack (channels reversed inside the blocks)")
         if isinstance(base, Rec) and not base.transposed and len(idx) == 2:
             r, c = idx
             if isinstance(r, tuple) and r[0] == "slice" and r[1] is None and r[2] is None and isinstance(c, tuple) and c[0] == "slice" and c[3] is None:
@@ -342,9 +407,43 @@ class Interp(seqdom.Interp):
         return Opq(f"stack `{astq.src(node, 50)}`")
 
     def call_hook(self, fn, args, kw, node, env):
+        if fn.endswith("sliding_window_view") and args and isinstance(args[0], Rec) and not args[0].transposed:
+            w = self.topoly(args[1] if len(args) > 1 else kw.get("window_shape"))
+            ax = self.topoly(kw.get("axis") if kw.get("axis") is not None else (args[2] if len(args) > 2 else None)) if (kw.get("axis") is not None or len(args) > 2) else None
+            if w is not None and ax is not None and ax.is_const() and int(ax.const()) in (1, -1):
+                return Slide(args[0].role, w, P.c(0), P.s("Ndat") - w + 1)
+            return Opq("sliding_window_view along another axis / with a non-polynomial width")
         if isinstance(node.func, ast.Attribute) and node.func.attr in ("transpose", "reshape", "swapaxes") or fn in ("numpy.transpose", "numpy.reshape", "numpy.moveaxis", "numpy.swapaxes"):
             base = self.ev(node.func.value, env) if isinstance(node.func, ast.Attribute) and not fn.startswith("numpy.") else (args[0] if args else None)
             rest = list(args) if isinstance(node.func, ast.Attribute) and not fn.startswith("numpy.") else list(args[1:])
+            if isinstance(base, Slide):
+                name = node.func.attr if isinstance(node.func, ast.Attribute) and not fn.startswith("numpy.") else fn.split(".")[-1]
+                if len(rest) == 1 and isinstance(rest[0], Tup):
+                    rest = rest[0].items
+                vals = [self.topoly(x) if isinstance(x, Val) else None for x in rest]
+                if name == "transpose" and len(vals) == 3 and all(v is not None and v.is_const() for v in vals) and sorted(int(v.const()) % 3 for v in vals) == [0, 1, 2]:
+                    return Slide(base.role, base.width, base.lo, base.n, [base.order[int(v.const()) % 3] for v in vals], base.rev)
+                if name == "moveaxis" and len(vals) == 2 and all(v is not None and v.is_const() for v in vals):
+                    o = list(base.order)
+                    x_ = o.pop(int(vals[0].const()) % 3)
+                    o.insert(int(vals[1].const()) % 3, x_)
+                    return Slide(base.role, base.width, base.lo, base.n, o, base.rev)
+                if name == "swapaxes" and len(vals) == 2 and all(v is not None and v.is_const() for v in vals):
+                    o = list(base.order)
+                    a_, b_ = int(vals[0].const()) % 3, int(vals[1].const()) % 3
+                    o[a_], o[b_] = o[b_], o[a_]
+                    return Slide(base.role, base.width, base.lo, base.n, o, base.rev)
+                if name == "reshape" and len(vals) == 2 and all(v is not None for v in vals) and base.n is not None:
+                    nch = P.s(SYM[base.role][0])
+                    if base.order == ("k", "c", "t") and vals[0] == base.n * nch and vals[1] == base.width:
+                        v = self.fresh("w") if hasattr(self, "fresh") else "w0"
+                        start = (base.lo + base.n - 1 - P.s(v)) if base.rev else (base.lo + P.s(v))
+                        return Stk(v, base.n, Win(base.role, start, start + base.width))
+                    if base.order == ("c", "k", "t") and vals[0] == base.n * nch:
+                        self.errors.append((node, f"`{astq.src(node, 50)}` flattens (channel, block) channel-major: rows are grouped by channel, not by block row"))
+                        return Opq("channel-major flattening of the window view")
+                    return Opq(f"reshape of a window view with axes {''.join(base.order)} to ({vals[0]!r}, {vals[1]!r})")
+                return Opq(f"{name} of a window view")
             if isinstance(base, Blk4):
                 name = node.func.attr if isinstance(node.func, ast.Attribute) and not fn.startswith("numpy.") else fn.split(".")[-1]
                 if len(rest) == 1 and isinstance(rest[0], Tup):
